@@ -42,6 +42,7 @@ type rs struct {
 	info *types.Info
 	inl  *flow.Inliner // helper calls inlined, the anchors of the rule set kept as calls
 	flat *flow.Inliner // R6 only: the line/terminator writers are inlined into their callers as well
+	cur  ast.Node      // body of the function under analysis (for resolving locals)
 }
 
 // anchors are the functions the rules reason about by name; everything else in
@@ -84,6 +85,20 @@ func (r *rs) isField(e ast.Expr, typ, field string) bool {
 }
 
 func (r *rs) method(recv, name string) *core.Fn { return r.inl.Fn(r.c.Func(pkg, recv, name)) }
+
+// guard records a three-valued guard obligation: VIOLATION only when a path
+// reaches the site through tests that are all understood; tests on the tracked
+// values in an unknown form make it UNDECIDED.
+func (r *rs) guard(rule, key string, pos token.Pos, g *cfgq.Graph, p cfgq.Point, want func(cfgq.Fact) bool, opaque flow.EdgeTest, detail string) {
+	switch v, w := flow.Guard(g, p, want, opaque); v {
+	case flow.Holds:
+		r.c.Check(rule, key, pos, true, detail)
+	case flow.Violated:
+		r.c.Check(rule, key, pos, false, detail, w...)
+	default:
+		r.c.Undecidedf(rule, key, pos, "the site is guarded by a test on the tracked value whose form is not understood; required: %s", detail)
+	}
+}
 
 // flatMethod is method with the text/terminator writers inlined too (R6).
 func (r *rs) flatMethod(recv, name string) *core.Fn { return r.flat.Fn(r.c.Func(pkg, recv, name)) }
